@@ -205,6 +205,12 @@ public:
     CXX20_REQUIRES(ReturnsFuture<Fn, T>)
     shared_future<T> &operator<<(Fn &&fn) noexcept {
         _ptr->operator <<(std::forward<Fn>(fn));
+        //the same wiring as the constructor does: the state must outlive its handles while pending
+        if (_ptr->pending()) {
+            _ptr->resolve_tracer.charge(_ptr);
+        } else {
+            std::atomic_thread_fence(std::memory_order_acquire);
+        }
         return *this;
     }
 
